@@ -210,7 +210,10 @@ def _remove_cn_zero_mutations(df):
         else:
             pl = "s"
         print("Removing {} mutation{} with major copy number zero".format(num_dels, pl))
-    df = df.loc[df["major_cn"] > 0]
+    # A mutation with a row whose major copy number is not positive is dropped entirely, not only that row: otherwise a
+    # second row of the same mutation in the same sample would let it through the one-row-per-sample filter
+    zero_cn_mutations = df.loc[~(df["major_cn"] > 0), "mutation_id"].unique()
+    df = df.loc[~df["mutation_id"].isin(zero_cn_mutations)]
     return df
 
 
